@@ -36,7 +36,8 @@ CERT_DIR = '/repo/test/unit/transport/certs'
 
 
 def notif_text(k):
-    return '<notification xmlns="%s"><eventTime>2020-01-01T00:00:%02dZ</eventTime><ev>n%d-é</ev></notification>' % (NOTIF_NS, k % 60, k)
+    from cases.session_gen import event_time
+    return '<notification xmlns="%s"><eventTime>%s</eventTime><ev>n%d-é</ev></notification>' % (NOTIF_NS, event_time(k), k)
 
 
 def reply_text(r):
@@ -82,8 +83,13 @@ def pki():
     sh('openssl', 'req', '-newkey', 'rsa:2048', '-nodes', '-keyout', 'srv.key', '-out', 'srv.csr', '-subj', '/CN=localhost')
     sh('openssl', 'x509', '-req', '-in', 'srv.csr', '-CA', 'ca.crt', '-CAkey', 'ca.key', '-CAcreateserial', '-out', 'srv.crt', '-days', '30',
        '-extfile', 'ext.cnf')
+    # a certificate of the SAME CA issued to another device (other name, other address)
+    open(os.path.join(d, 'ext2.cnf'), 'w').write('subjectAltName=IP:10.9.9.9,DNS:other-device.example\n')
+    sh('openssl', 'req', '-newkey', 'rsa:2048', '-nodes', '-keyout', 'srv2.key', '-out', 'srv2.csr', '-subj', '/CN=other-device.example')
+    sh('openssl', 'x509', '-req', '-in', 'srv2.csr', '-CA', 'ca.crt', '-CAkey', 'ca.key', '-CAcreateserial', '-out', 'srv2.crt', '-days', '30',
+       '-extfile', 'ext2.cnf')
     _PKI.update(dir=d, ca=os.path.join(d, 'ca.crt'), otherca=os.path.join(d, 'otherca.crt'), srv_crt=os.path.join(d, 'srv.crt'),
-                srv_key=os.path.join(d, 'srv.key'))
+                srv_key=os.path.join(d, 'srv.key'), srv2_crt=os.path.join(d, 'srv2.crt'), srv2_key=os.path.join(d, 'srv2.key'))
     return _PKI
 
 
@@ -94,7 +100,8 @@ def make_server(sc, handler, **kw):
         return FS.UnixServer(caps=caps, handler=handler, **kw)
     if tr == 'tls':
         p = pki()
-        return FS.TlsServer(p['srv_crt'], p['srv_key'], caps=caps, handler=handler, **kw)
+        which = 'srv2' if sc.get('other_device_cert') else 'srv'
+        return FS.TlsServer(p[which + '_crt'], p[which + '_key'], caps=caps, handler=handler, **kw)
     if tr == 'ssh':
         return FS.SshServer(caps=caps, handler=handler, **kw)
     raise ValueError(tr)
@@ -312,6 +319,11 @@ def run_traffic(sc):
         t0 = time.time()
         res['take_empty_blocking'] = m.take_notification(block=True, timeout=0.25) is None
         res['take_empty_blocking_dt'] = time.time() - t0
+        # the other argument combinations: non-blocking with a timeout given (returns at once), blocking with timeout 0 (returns after 0 s)
+        st, v, dt = FS.run_with_timeout(lambda: m.take_notification(block=False, timeout=3.0), 6)
+        res['take_nonblocking_with_timeout'] = [st, v is None, dt]
+        st, v, dt = FS.run_with_timeout(lambda: m.take_notification(block=True, timeout=0), 3)
+        res['take_blocking_zero'] = [st, v is None, dt]
         res['notifs_sent'] = state['notifs_sent']
         res['connected_before_close'] = m.connected
         res['closed_at'] = state['closed_at']
